@@ -200,6 +200,8 @@ _text_proxy = {}
 def materialise(case, P):
     """(name, a, b, kwargs for run_real/oracle/request_line)"""
     name = case["a"]
+    if "desc" in case:
+        return from_description(case["desc"])
     if "exec" in case:
         a, printed = execution(case["exec"])
         t = TEXTS[case["text"]]
@@ -231,6 +233,8 @@ def materialise(case, P):
 
 def describe(case, P):
     """JSON-able, self-contained version of a case for replay files"""
+    if "desc" in case:
+        return case["desc"]
     d = {"a": case["a"], "wrap": case["wrap"]}
     if "exec" in case:
         d["execution"] = list(ag.EXECUTIONS[case["exec"]])
@@ -347,7 +351,7 @@ def oracle_unit(case, P):
 
 
 def unit_line(case, P, seen):
-    toks = ["u", str(len(case["rows"])), "0"] + ac.enc_val(ac.DEFAULT_DELTA, [])
+    toks = ["u", str(len(case["rows"])), "0"] + ac.enc_val(ac.code_delta(), [])
     for (j, s, e), left in zip(case["rows"], seen):
         toks += ac.enc_operand(left) + ac.enc_operand(P.raw[e])
     return " ".join(toks)
@@ -508,9 +512,76 @@ def all_cases(rng, tier, P):
                            gen_after_failure(rng, tier, P), gen_binary(rng, tier, P))
 
 
+def _v(x):
+    return ac.spec_of(x)
+
+
+def builtin_corpus():
+    """The cells behind every defect found so far (DESIGN section 4 C07 and the fix: commits), in all wrappings
+    and both orders — always run first, in every tier."""
+    near, far = ag.f20(ag.ONE + ag.IN), ag.f20(ag.ONE + ag.OUT)
+    pairs = [
+        ("assert_less", 1, "a"), ("assert_less", {1, 2}, {3}), ("assert_less_equal", {1, 2}, {3}),
+        ("assert_greater", {1, 2}, {3}), ("assert_greater_equal", {1, 2}, {3}), ("assert_less", {1}, {1, 2}),
+        ("assert_less", 1, 2), ("assert_less", 2, 1), ("assert_less", [1, "a"], [1, 2]),
+        ("assert_in", 1, None), ("assert_not_in", 1, None), ("assert_in", "a", "abc"), ("assert_in", "z", "abc"),
+        ("assert_not_in", "a", "abc"), ("assert_not_in", "z", "abc"), ("assert_in", [1], {1}), ("assert_in", {1}, {1}),
+        ("assert_contains_subset", ["a", 1], "abc"), ("assert_contains_subset", ["z", 1], "abc"),
+        ("assert_not_contains_subset", ["z", 1], "abc"), ("assert_contains_subset", 5, [5]),
+        ("assert_length_equal", 5, 1), ("assert_length_equal", [1], 1), ("assert_length_equal", [1], 1.0),
+        ("assert_length_less", [1], "a"), ("assert_length_greater_equal", [1, 2], 2),
+        ("assert_equal", near, 1), ("assert_equal", 1, near), ("assert_equal", far, 1), ("assert_equal", 1, far),
+        ("assert_not_equal", near, 1), ("assert_not_equal", 1, near), ("assert_equal", near, True),
+        ("assert_equal", [1, [near]], [1, [1]]), ("assert_equal", {"a": near}, {"a": 1}),
+        ("assert_equal", {1.0, ag.f20(ag.ONE + 1900)}, {ag.f20(ag.ONE + 950), 7.0}),
+        ("assert_equal", {"a", "A"}, {"a", "c"}), ("assert_not_equal", {"a", "A"}, {"a", "c"}),
+        ("assert_equal", {"A": 1}, {"a": 1}), ("assert_not_equal", {"A": 1}, {"a": 1}),
+        ("assert_not_equal", {ag.f20(ag.ONE + 500): "x"}, {1: "x"}),
+        ("assert_equal", "Ab.", "ab"), ("assert_equal", "a.b", "ab"), ("assert_equal", "a.b", "a b"),
+        ("assert_equal", "a\nb", "b\na"), ("assert_equal", "a\rb", "a b"), ("assert_equal", "a\x0cb", "a b"),
+        ("assert_equal", "a b ", "a b"), ("assert_equal", "", " "), ("assert_equal", None, ""),
+        ("assert_equal", 0, False), ("assert_equal", [], ()), ("assert_equal", 0, None),
+        ("assert_is", None, None), ("assert_is_not", None, None), ("assert_is", [], []), ("assert_is", 0, False),
+        ("assert_is_instance", 1.5, int), ("assert_is_instance", True, float), ("assert_is_instance", "a", (int, str)),
+        ("assert_not_is_instance", "a", int), ("assert_is_instance", 1, 1),
+        ("assert_regex", "a+", "caat"), ("assert_regex", "(", "caat"), ("assert_not_regex", "z", "caat"),
+        ("assert_regex", "1", 1),
+    ]
+    out = []
+    for name, l, r in pairs:
+        for w in WRAPS:
+            if w[1] == "p" and isinstance(r, type):
+                pass
+            out.append({"a": name, "wrap": w, "desc": {"a": name, "wrap": w, "l": _v(l), "r": _v(r)}})
+    unary = [None, 0, 0.0, "", [], (), {}, set(), False, True, 1, "a", [0], " "]
+    for name in ac.UNARY:
+        for v in unary:
+            for w in "rp":
+                out.append({"a": name, "wrap": w, "desc": {"a": name, "wrap": w, "l": _v(v)}})
+    for how in ("boom", "mkexc", "raw"):
+        for name in ac.BINARY:
+            for side in "lr":
+                d = {"a": name, "wrap": "rr", "l": {"t": "err", "how": how}, "r": _v(1)}
+                if side == "r":
+                    d["l"], d["r"] = d["r"], d["l"]
+                out.append({"a": name, "wrap": "rr", "desc": d})
+        for name in ac.UNARY:
+            out.append({"a": name, "wrap": "r", "desc": {"a": name, "wrap": "r", "l": {"t": "err", "how": how}}})
+    return out
+
+
 def corpus_cases(P):
-    """corpus/C07/*.json hold replay descriptions; they are matched back to pool entries where possible"""
-    return []
+    """built-in corpus + corpus/C07/*.json (replay descriptions of past failures)"""
+    out = builtin_corpus()
+    d = os.path.join(VERIF, "corpus", "C07")
+    if os.path.isdir(d):
+        for fn in sorted(os.listdir(d)):
+            if fn.endswith(".json"):
+                with open(os.path.join(d, fn)) as fh:
+                    desc = json.load(fh)
+                if "a" in desc and "wrap" in desc:
+                    out.append({"a": desc["a"], "wrap": desc["wrap"], "desc": desc})
+    return out
 
 
 def correspond(rng, tier, driver):
@@ -542,7 +613,8 @@ def correspond(rng, tier, driver):
                 res.count("model-unmodelled")
                 continue
             if real == "silent":
-                res.nontrivial.add((name, case.get("li"), case.get("ri"), case.get("exec"), case.get("text")))
+                res.nontrivial.add((name, case.get("li"), case.get("ri"), case.get("exec"), case.get("text"),
+                                    json.dumps(case["desc"], sort_keys=True) if "desc" in case else None))
             if model != real:
                 res.disagreements.append({"case": describe(case, P), "real": real, "model": model, "request": line})
             elif spec in ("silent", "fires") and spec != want:
@@ -657,7 +729,7 @@ def search(rng, tier, broken, corr):
                    "type": type_shape(t)}
             key = json.dumps(sig, sort_keys=True)
             if key not in best:
-                best[key] = (0, Failure(sig, "%s(%r, %r) [%s] is %s, expected %s" % (name, v, t, w, real, want),
+                best[key] = (5000, Failure(sig, "%s(%r, %r) [%s] is %s, expected %s" % (name, v, t, w, real, want),
                                         {"type_case": vi, "wrap": w, "assertion": name, "real": real, "expected": want}))
     info["distinct_nontrivial"] = len(nt)
     info["samples"] = [json.loads(x) for x in list(nt)[:2]]
